@@ -96,6 +96,7 @@ def main(argv=None):
     violations, known_hits, inconclusive = [], {}, []
     boundary_only = []
     n_div = 0
+    n_inc_known = 0
     tot = {'paths': 0, 'paths_ok': 0, 'aborted': 0, 'obligations': 0, 'discharged_ground': 0, 'discharged_solver': 0,
            'native_runs': 0, 'decisions': 0, 'roundings': 0, 'native_vacuous': 0}
     stats = {}
@@ -135,6 +136,9 @@ def main(argv=None):
         for inc in r['inconclusive'][:5]:
             inc = dict(inc)
             inc['cell'] = r['id']
+            if 'label' in inc and match_known(known, prop, r['fn'], r['id'], inc['label'], inc.get('region', '')) is not None:
+                n_inc_known += 1      # an unconfirmed counterexample of an obligation that is a known finding in this cell
+                continue
             inconclusive.append(inc)
         if r['paths_ok'] == 0 and not r['violations'] and not cell_by_id[r['id']].get('may_be_empty'):
             inconclusive.append({'cell': r['id'], 'why': 'vacuous: no path reached the obligations'})
